@@ -1,6 +1,6 @@
 (* C18 — multiproof compression and compact block relay are lossless. *)
 From Coq Require Import List NArith Bool.
-From Sia Require Import Merkle.Tree Merkle.Multi Merkle.MultiProofs Gateway.Outline.
+From Sia Require Import Merkle.Tree Merkle.Multi Merkle.MultiProofs Merkle.MultiInfer Gateway.Outline.
 Import ListNotations.
 Open Scope N_scope.
 
@@ -15,6 +15,21 @@ Theorem C18_multiproof_lossless : forall (hash : Type) (node : hash -> hash -> h
                Some (root hash node t, map (fun x => firstn (height hash t) (ml_proof hash x)) ls, rest).
 Proof. exact expand_compute. Qed.
 Print Assumptions C18_multiproof_lossless.
+
+(* the proofs the theorem speaks about are exactly the verifying ones: proofRoot(leaf, index, sibling path) = root *)
+Theorem C18_individual_proofs_verify : forall (hash : Type) (node : hash -> hash -> hash) (t : ptree hash),
+  perfect hash t -> forall base i, base <= i < base + pow2 (height hash t) ->
+  proofRoot hash node (leaf_in hash t base i) (lsb (i - base) (height hash t)) (proof_in hash node t base i) = root hash node t.
+Proof. exact proof_in_verifies. Qed.
+Print Assumptions C18_individual_proofs_verify.
+
+(* the codec's leaf-count inference: for leaves of one accumulator state (leaf idx in the tree of height h of an
+   accumulator with NL leaves), the decoder accepts every leaf and recovers exactly its proof length from the
+   inferred count *)
+Theorem C18_proof_lengths_recovered : forall NL ls idx h,
+  Forall (fun x => in_tree NL (fst x) (snd x)) ls -> In (idx, h) ls -> proof_len idx (infer_leaves ls) = Some h.
+Proof. exact proof_len_recovered. Qed.
+Print Assumptions C18_proof_lengths_recovered.
 
 (* the outline carries the block's transaction hashes whatever is omitted (so commitment and ID are those of the block) *)
 Theorem C18_outline_same_hashes : forall (T K : Type) (K_eqb : K -> K -> bool) (h : T -> K) b omit,
